@@ -99,6 +99,24 @@ Proof.
 Qed.
 Print Assumptions C11_count_by_weight_outside_F18.
 
+(* the whole bounded/sound clause at the level of weights, outside F18 *)
+Theorem C11_bounded_sound_outside_F18 :
+  forall K klt kpos A, key_order K klt kpos ->
+  forall keyof : N -> N -> K, (forall u w, u <= maxU32 -> kpos (keyof u w) = dk_pos (u, w)) ->
+  forall (lv : list (drow A)) max q,
+    (1 <= max)%Z -> q = TypeA \/ q = TypeAAAA -> NoDup (map (dpay A) lv) ->
+    Forall (in_open_range A) lv ->
+    exists res, records kpos (feed klt max (map (to_row K A keyof) lv)) q = Ok res
+      /\ (forall it, In it res -> exists d, In d lv /\ dq A d = q /\ dpay A d = snd it /\ 0 < dw A d)
+      /\ NoDup (map snd res)
+      /\ length res = Nat.min (Z.to_nat max)
+                        (length (filter (fun d : drow A => (dq A d =? q) && (0 <? dw A d)) lv)).
+Proof.
+  intros K klt kpos A (H1 & H2 & H3) keyof Hk.
+  exact (bounded_sound_outside_F18 K klt kpos A H1 H2 H3 keyof Hk).
+Qed.
+Print Assumptions C11_bounded_sound_outside_F18.
+
 (* finding F18 (b): the draw 0 gives a positive-weight record key 0: the only
    candidate is dropped, so "exactly min(max, #positive-weight)" is false *)
 Theorem C11_count_by_weight_refuted :
